@@ -143,7 +143,19 @@ func run(id, tier string) int {
 	ctx := &rt.Ctx{Prop: id, Tier: tier, Seed: seed(), Scratch: mkScratch(id), Deadline: t0.Add(budget(tier)), Cov: rt.NewCoverage(), Level: p.Level}
 	defer cleanup()
 	vs := p.Run(ctx)
-	if len(vs) == 0 && len(ctx.Stuck) > 0 {
+	// a stuck worker is tolerated only next to a violation that will be reported: a recorded known finding must not
+	// excuse it (a hang of another kind hid behind the C17 known finding that way once)
+	unknown := 0
+	for _, v := range vs {
+		isKnown := false
+		for _, k := range rt.LoadKnown() {
+			isKnown = isKnown || (!k.Fixed && k.Prop == id && k.Sig == v.Sig)
+		}
+		if !isKnown {
+			unknown++
+		}
+	}
+	if unknown == 0 && len(ctx.Stuck) > 0 {
 		rt.Harnessf("%s", ctx.Stuck[0])
 	}
 	for _, st := range ctx.Stuck {
